@@ -12,6 +12,10 @@ CHECKS = {
     "C19": ("proof: Lean theorems over all lists / atoms objects / index lists in any order (reinsert_delete, atoms_reinsert_delete incl. names, dtypes, dict order; search_total, search_default_kept, search_label, search_same_label_iff for any component list, size filter and default array) on a model of ASE mask-delete/fancy-pick, reinsert_atoms and the labelling loop of search_molecules, tied to the code on real Atoms (all ordered subsets of 4 atoms + random) and random molecular boxes vs an independent union-find over minimum-image distances",
             "§6 C19", "Lean 4 theorems (core only) by induction with position offsets + differential correspondence with real ASE/quansino objects",
             "connected components are an input of the model (harness union-find, compared with the real function on every case); integer-valued entries; same-label iff needs negative defaults on non-admitted atoms (collision witness proved)"),
+    "C18": ("proof: Lean theorems over all min<=max, ref>0, v>=0 and both update functions (update_range, delta_range, delta_at_zero, delta_at_ref, delta_antitone, delta_tendsto_min, per-coordinate versions, fallback_is_ref, update_delta_range end-to-end through the getters) "
+            "on a model of AdaptiveForceBias.update_delta/getters/tanh_update/exp_update, tied to the code by real update_delta() runs with prescribed committee arrays and a v-sweep 0..1e300",
+            "§6 C18", "Lean 4 real-analysis theorems (closed forms, Antitone, Filter.Tendsto) + differential correspondence with the real class (Float instance, 1e-12) + oracle on real step()",
+            "theorems over the reals: rounding at the anchors / float saturation not covered; zero-force coordinate gives 0/0 = nan (outside 'finite variance'); numpy summation orders mirrored; ForceBias.step itself is C13"),
 }
 
 NOT_APPLICABLE = {}
